@@ -101,7 +101,7 @@ func c07Alphabet(keys [][]byte, loadStore bool) []bop {
 		bop{name: "Advance(6m)", kind: "advance", adv: 6 * time.Minute},
 		bop{name: "Walk(callback fails at the first entry)", kind: "walkfail"},
 		bop{name: "Write(k0,4,ttl=-100y)", kind: "write", key: 0, val: 4, ttl: -100 * 365 * 24 * time.Hour}, // expiry instant before 1970
-		bop{name: "Advance(25h)", kind: "advance", adv: 25 * time.Hour}, // beyond DeleteExpiredAfter: no cycle runs, so expired entries stay retrievable
+		bop{name: "Advance(25h)", kind: "advance", adv: 25 * time.Hour},                                     // beyond DeleteExpiredAfter: no cycle runs, so expired entries stay retrievable
 		bop{name: "Write(k0,3,ttl=default inside a -10s scope)", kind: "write", key: 0, val: 3, nested: true},
 	)
 
